@@ -6,6 +6,8 @@ import socket
 import struct
 import sys
 
+import gevent
+
 from slimta.edge import EdgeServer
 from slimta.util.proxyproto import ProxyProtocol, ProxyProtocolV1, ProxyProtocolV2
 
@@ -33,10 +35,12 @@ class Sock(object):
 
     def recv_into(self, buf, n=0):
         n = n or len(buf)
+        if self.pattern.startswith('yield'):
+            gevent.sleep(0)           # a real socket waits for readability here: other connections run meanwhile
         avail = len(self.stream) - self.pos
         if self.pattern == 'full':
             k = n
-        elif self.pattern == 'one':
+        elif self.pattern in ('one', 'yield-one'):
             k = 1
         else:
             k = self.rnd.randint(1, max(1, n))
@@ -178,6 +182,22 @@ def main():
                                 'valid': valid, 'hlen': len(hdr), 'exp': exp, 'ev': ev}, separators=(',', ':')) + '\n')
             n[0] += 1
 
+    def emit_concurrent(mode_a, a, mode_b, b, payload):
+        # two connections being read at the same time (greenlets switching at every read): each is judged on its own
+        for pattern in ('yield-one', 'yield-rand'):
+            res = {}
+
+            def one(key, mode, stream):
+                res[key] = run_case(mode, stream, pattern, rnd)
+            gs = [gevent.spawn(one, 0, mode_a, a[0] + payload), gevent.spawn(one, 1, mode_b, b[0] + payload)]
+            gevent.joinall(gs)
+            for key, (mode, (hdr, exp)) in enumerate(((mode_a, a), (mode_b, b))):
+                stats['executions'] += 1
+                stats['valid'] += 1
+                f.write(json.dumps({'id': shard + n[0] * nshards, 'cls': 'concurrent-' + mode, 'mode': mode, 'stream': list(hdr + payload),
+                                    'valid': True, 'hlen': len(hdr), 'exp': exp, 'ev': res[key]}, separators=(',', ':')) + '\n')
+                n[0] += 1
+
     N = 90 if quick else 2500
     payloads = [b'', b'EHLO x\r\n', b'\r\n\r\n', b'\r', bytes(range(256)), b'PROXY TCP4 9.9.9.9 9.9.9.9 9 9\r\n']
     for _ in range(N):
@@ -198,6 +218,10 @@ def main():
                 i = rnd.randrange(len(b))
                 b[i] = rnd.getrandbits(8)
             emit('corrupted', rnd.choice([ver, 'auto']), bytes(b), {'kind': 'any'}, False, rnd.choice(payloads))
+        a1, a2 = v1_valid(rnd), v2_valid(rnd)
+        emit_concurrent('auto', a1, 'auto', a2, rnd.choice(payloads))
+        emit_concurrent('v1', a1, 'v1', v1_valid(rnd), rnd.choice(payloads))
+        emit_concurrent('v2', a2, 'auto', v2_valid(rnd), rnd.choice(payloads))
         g = bytes(rnd.getrandbits(8) for _ in range(rnd.randint(0, 140)))
         if rnd.random() < 0.3:
             g = rnd.choice([b'PROXY ', SIG, SIG[:8], b'PROXY TCP4 ']) + g
